@@ -29,6 +29,22 @@ Theorem C12_disjoint_ownership : forall ops,
 Proof. exact disjoint_ownership. Qed.
 Print Assumptions C12_disjoint_ownership.
 
+(** The call that FIRES the lazy encode memo of a constructed message body hands the caller a FRESH
+    caller-owned cell: afterwards the memo is an object-owned cell, the returned slice is a different,
+    caller-owned cell, and both hold the encoding the object showed before. (The memo lives in the
+    body, which re-stamped and derived copies share.) *)
+Theorem C12_memo_firing_call_returns_fresh_cell : forall st o bi b, inv st ->
+  nth_error (st_objs st) o = Some bi -> nth_error (st_bodies st) bi = Some b -> b_memo b = MUnfired ->
+  let st' := step st (OGet o 1) in
+  exists v m b',
+    st_caller st' = st_caller st ++ [v] /\ caller_owned (st_heap st') v /\
+    body_of st' o = Some b' /\ b_memo b' = MFired m /\ obj_owned (st_heap st') m /\
+    v_cell v <> v_cell m /\
+    read (st_heap st') v = read (st_heap st') m /\
+    read (st_heap st') m = obs st o 1.
+Proof. exact memo_firing_call_returns_fresh_cell. Qed.
+Print Assumptions C12_memo_firing_call_returns_fresh_cell.
+
 (** positive control: with DecodeOwned / DecodeOwnedHSMSPayload the same caller write DOES change an
     observation (so the exclusion is necessary and the model can see interference) *)
 Theorem C12_owned_interferes : exists pre post o g,
@@ -57,7 +73,7 @@ Print Assumptions C12_no_early_read.
 (** ** Non-vacuity *)
 
 Example C12_noninterference_nonvacuous :
-  let pre := [ONew [1; 2; 3]%Z; OConstruct [0]] in
+  let pre := [ONew [1; 2; 3]%Z; OConstruct [0] true] in
   let post := [OWrite 0 1 9%Z;            (* mutate the slice passed to the constructor *)
                OGet 0 0; OWrite 1 0 7%Z;  (* mutate the slice an accessor returned *)
                ONew [5; 5]%Z; OAppend 0 1 2; OWrite 3 3 8%Z;   (* append, then scribble on the result *)
@@ -67,6 +83,19 @@ Example C12_noninterference_nonvacuous :
   obs (run init (pre ++ post)) 0 0 = [1; 2; 3]%Z /\
   obs (run init (pre ++ post)) 1 1 = [1; 2; 3]%Z /\
   cell_data (st_heap (run init (pre ++ post))) 0 = [1; 9; 3]%Z.
+Proof. cbv zeta. repeat split; reflexivity. Qed.
+
+(* the first serialisation of a constructed message fires the memo; overwriting that very result
+   (caller buffer 1) leaves the message and a re-stamped copy made BEFORE it unchanged *)
+Example C12_memo_nonvacuous :
+  let pre := [ONew [4; 5]%Z; OConstruct [0] true; OShare 0] in
+  let post := [OGet 0 1; OWrite 1 0 99%Z; OWrite 1 1 98%Z; OShare 0] in
+  b_memo (nth 0 (st_bodies (run init pre)) {| b_groups := []; b_memo := MNone |}) = MUnfired /\
+  b_memo (nth 0 (st_bodies (run init (pre ++ post))) {| b_groups := []; b_memo := MNone |})
+    = MFired {| v_cell := 2; v_off := 0; v_len := 2 |} /\
+  cell_data (st_heap (run init (pre ++ post))) 3 = [99; 98]%Z /\
+  obs (run init (pre ++ post)) 0 1 = [4; 5]%Z /\ obs (run init (pre ++ post)) 1 1 = [4; 5]%Z /\
+  obs (run init (pre ++ post)) 2 1 = [4; 5]%Z.
 Proof. cbv zeta. repeat split; reflexivity. Qed.
 
 Example C12_once_nonvacuous :
